@@ -82,6 +82,8 @@ package gcs
 
 //@ func gcs.(*Filter).HashMatchAny
 //@   requires f.p <= 32
+//@   localtype values: map[uint64]struct{}
+//@   localtype lastValue: uint64
 //@   ensures len(data) == 0 ==> !result0 && err == nil
 //@   modifies nothing
 //@   assert after NewBStreamReader#1: len($arg0) == len(f.filterData) && forall k :: 0 <= k && k < len(f.filterData) ==> $arg0[k] == f.filterData[k]
